@@ -61,3 +61,43 @@ def set_output_contract(c):
              ensures=lambda post, exc: [post.f('_output', me) == set_output_result(p, v)])
     c.ensures('value_defined', v != Val.Undef)
     c.ensures('self_output', c.post('_output', me) == set_output_result(p, v))
+
+
+# ------------------------------------------------------------------------------------------ user callables
+# Interface contract for callables supplied by the user (check/schema/func/filters/callbacks): the result and
+# whether the call raises are uninterpreted functions of the callee and its argument(s) -- i.e. the callable is
+# assumed to be a deterministic function of its arguments; it may raise any Exception ("OtherException").
+app = Function('app', Val, Val, Val)
+app_raises = Function('app_raises', Val, Val, BoolSort())
+
+
+def pack_args(st, pos, named):
+    if len(pos) == 1 and not named: return to_val(pos[0], st)
+    items = [to_val(p, st) for p in pos]
+    arr = EMPTY_DICT
+    for k, v in sorted(named.items()): arr = Store(arr, StringVal(k), Opt.Some(to_val(v, st)))
+    return to_val(PTuple([ZV('val', x) for x in items] + ([PDict(arr)] if named else [])), st)
+
+
+def user_call(ex, st, f, pos, named, stars, sargs, node):
+    from pyvc.engine import Raise
+    if stars or sargs: raise Unsupported('*/** arguments to a user callable')
+    fv, a = to_val(f, st), pack_args(st, pos, named)
+    outs = []
+    ok = st.copy(); ok.assume(Not(app_raises(fv, a))); ok.emit(rec('usercall', fv, a))
+    if ex.feasible(ok): outs.append((ok, ZV('val', app(fv, a))))
+    bad = st.copy(); bad.assume(app_raises(fv, a)); bad.emit(rec('usercall', fv, a)); bad.label('usercall:raises')
+    if ex.feasible(bad): outs.append((bad, Raise(PExc('OtherException', val=Val.Obj(fresh('exc', IntSort())), where='callee'))))
+    return outs
+
+
+# ------------------------------------------------------------------------------------------ event() entry point
+# `self.event(etype, **data)` as seen by a caller inside the same block (init_from_value and friends): the call is
+# recorded in the activation trace with its data; what the handler does is the handler's own contract.
+@contract('*.event', modifies=('_output', '_event_active'), result=VAL,
+          sig=([__import__('pyvc.contract', fromlist=['Param']).Param('self', Ref()),
+                __import__('pyvc.contract', fromlist=['Param']).Param('etype', VAL, posonly=True)], None, 'data'),
+          trusted='SBlock.event / AddonPersistence.event (verified under C11, C09, C06)',
+          traced=lambda a, st: rec('event', to_val(a['self'], st), to_val(a['etype'], st), kw=a['data'].arr))
+def event_iface(c):
+    c.raises('DeliveryError', unchanged=False)
